@@ -234,6 +234,37 @@ def AnyMesh.view : AnyMesh → Option TMesh
   | .rect g => some g.view
   | .struct g => some g.view
 
+/-- the tolerances the object reports -/
+def AnyMesh.tol : AnyMesh → Nat × Nat
+  | .explicit m => (m.rel, m.abs)
+  | .permuted m => (m.rel, m.abs)
+  | .image g => (g.rel, g.abs)
+  | .rect g => (g.rel, g.abs)
+  | .struct g => (g.rel, g.abs)
+
+/-- the decidable well-formedness hypothesis under which the model speaks for one object -/
+def AnyMesh.ok : AnyMesh → Bool
+  | .explicit m => m.mesh.wfEq
+  | .permuted m => m.mesh.wfEq
+  | .rect g => g.ok
+  | .struct g => g.ok
+  | .image g => g.ok
+
+/-- is the ordered pair answered by a structured short-cut (same structured class)? -/
+def shortcut : AnyMesh → AnyMesh → Bool
+  | .image _, .image _ => true
+  | .rect _, .rect _ => true
+  | .struct _, .struct _ => true
+  | _, _ => false
+
+def AnyMesh.isPermuted : AnyMesh → Bool
+  | .permuted _ => true
+  | _ => false
+
+/-- does `a.equals(b)` or `b.equals(a)` evaluate with the receiver's tolerances only
+    (structured short-cut, `PermutedMesh.equals`)?  Otherwise both orders use the smaller tolerances. -/
+def receiverTol (a b : AnyMesh) : Bool := shortcut a b || a.isPermuted || b.isPermuted
+
 def viaMeshEqual (a b : Option TMesh) : Verdict :=
   match a, b with
   | some x, some y => meshEqual x y
